@@ -276,6 +276,11 @@ func (s *Server[StateT]) handleWriteFile(ctx *Context[StateT]) error {
 
 	written, err := s.Handler.HandleWriteFile(ctx, data)
 	if err != nil {
+		// payload (or its rest) must be consumed, otherwise it will be parsed as next commands
+		if _, err := io.Copy(io.Discard, data); err != nil {
+			return fmt.Errorf("discard file data failed: %w", err)
+		}
+
 		return ctx.wr.SendWriteFileError()
 	}
 
